@@ -791,7 +791,7 @@ class Exporter
         if (!TA.empty()) J.attribute("targs", TA);
         std::string CTA = classTargsOf(FD, PP);
         if (!CTA.empty()) J.attribute("ctargs", CTA);
-        J.attribute("file", fileOf(FD->getLocation()));
+        J.attribute("file", fileOf(FD->getBody() ? FD->getBody()->getBeginLoc() : FD->getLocation()));
         J.attribute("line", (int64_t)lineOf(FD->getBeginLoc()));
         J.attribute("endline", (int64_t)lineOf(FD->getEndLoc()));
         J.attribute("ret", typeStr(FD->getReturnType()));
